@@ -6,6 +6,7 @@ import (
 	"context"
 	"errors"
 	"sort"
+	"strings"
 	"sync"
 	"sync/atomic"
 
@@ -46,6 +47,8 @@ type RecDS struct {
 	OnMutation func(m *Mutation, before func(key string) ([]byte, bool))
 	// FailOn, if set, is consulted before every access; a non-nil error is returned to the caller.
 	FailOn func(op, key string) error
+	// NoBatch makes Batch() answer ds.ErrBatchUnsupported (a backend without batching behind a batching interface).
+	NoBatch bool
 
 	Reads  atomic.Int64
 	Writes atomic.Int64
@@ -179,6 +182,9 @@ type recBatch struct {
 }
 
 func (d *RecDS) Batch(ctx context.Context) (ds.Batch, error) {
+	if d.NoBatch {
+		return nil, ds.ErrBatchUnsupported
+	}
 	return &recBatch{d: d}, nil
 }
 
@@ -196,13 +202,19 @@ func (b *recBatch) Commit(ctx context.Context) error {
 	if err := b.d.fail("commit", ""); err != nil {
 		return err
 	}
-	b.d.perturb("commit", "")
+	// the perturbation hook of a commit gets the keys the batch touches, one per line
+	var keys []string
+	for _, op := range b.ops {
+		keys = append(keys, op.Key)
+	}
+	joined := strings.Join(keys, "\n")
+	b.d.perturb("commit", joined)
 	ops := b.ops
 	b.ops = nil
 	if len(ops) > 0 {
 		b.d.apply(ops)
 	}
-	b.d.perturb("commit-done", "")
+	b.d.perturb("commit-done", joined)
 	return nil
 }
 
